@@ -582,20 +582,31 @@ type ownSpec struct {
 	Dir     string // package dir
 	Recv    string // receiver type ("" for a plain function)
 	Func    string
-	Aliases []string // source texts that denote the buffer
+	Aliases []string // source texts that denote the buffer / pooled object
 	Owner   string   // variable whose putJSONEncoder(...) detaches the buffer ("" if none)
+	Put     string   // function (or pool method, as printed source) whose call Put(alias) returns the object to its pool; alias.Free() always does
 }
 
 var c08Owns = []ownSpec{
-	{"ioCore.Write", "zapcore", "ioCore", "Write", []string{"buf"}, ""},
-	{"jsonEncoder.EncodeEntry", "zapcore", "jsonEncoder", "EncodeEntry", []string{"final.buf", "ret"}, "final"},
-	{"consoleEncoder.EncodeEntry", "zapcore", "consoleEncoder", "EncodeEntry", []string{"line"}, ""},
-	{"consoleEncoder.writeContext", "zapcore", "consoleEncoder", "writeContext", []string{"context.buf"}, "context"},
-	{"putJSONEncoder", "zapcore", "", "putJSONEncoder", []string{"enc.reflectBuf"}, ""},
-	{"EntryCaller.FullPath", "zapcore", "EntryCaller", "FullPath", []string{"buf"}, ""},
-	{"EntryCaller.TrimmedPath", "zapcore", "EntryCaller", "TrimmedPath", []string{"buf"}, ""},
-	{"Logger.check", ".", "Logger", "check", []string{"buffer"}, ""},
-	{"stacktrace.Take", "internal/stacktrace", "", "Take", []string{"buffer"}, ""},
+	{"ioCore.Write", "zapcore", "ioCore", "Write", []string{"buf"}, "", ""},
+	{"jsonEncoder.EncodeEntry", "zapcore", "jsonEncoder", "EncodeEntry", []string{"final.buf", "ret"}, "final", ""},
+	{"consoleEncoder.EncodeEntry", "zapcore", "consoleEncoder", "EncodeEntry", []string{"line"}, "", ""},
+	{"consoleEncoder.writeContext", "zapcore", "consoleEncoder", "writeContext", []string{"context.buf"}, "context", ""},
+	{"putJSONEncoder", "zapcore", "", "putJSONEncoder", []string{"enc.reflectBuf"}, "", ""},
+	{"EntryCaller.FullPath", "zapcore", "EntryCaller", "FullPath", []string{"buf"}, "", ""},
+	{"EntryCaller.TrimmedPath", "zapcore", "EntryCaller", "TrimmedPath", []string{"buf"}, "", ""},
+	{"Logger.check", ".", "Logger", "check", []string{"buffer"}, "", ""},
+	{"stacktrace.Take", "internal/stacktrace", "", "Take", []string{"buffer"}, "", ""},
+	// the other pooled objects, in the function that holds them from Get to Put: everything the function
+	// does with the object (field reads, passing it to a core, a marshaler, a hook) comes before the Put
+	{"CheckedEntry.Write/ce", "zapcore", "CheckedEntry", "Write", []string{"ce"}, "", "putCheckedEntry"},
+	{"jsonEncoder.EncodeEntry/final", "zapcore", "jsonEncoder", "EncodeEntry", []string{"final"}, "", "putJSONEncoder"},
+	{"consoleEncoder.writeContext/context", "zapcore", "consoleEncoder", "writeContext", []string{"context"}, "", "putJSONEncoder"},
+	{"consoleEncoder.EncodeEntry/arr", "zapcore", "consoleEncoder", "EncodeEntry", []string{"arr"}, "", "putSliceEncoder"},
+	{"zapcore.errArray.MarshalLogArray/el", "zapcore", "errArray", "MarshalLogArray", []string{"el"}, "", ""},
+	{"zap.errArray.MarshalLogArray/elem", ".", "errArray", "MarshalLogArray", []string{"elem"}, "", "_errArrayElemPool.Put"},
+	{"Logger.check/stack", ".", "Logger", "check", []string{"stack"}, "", ""},
+	{"stacktrace.Take/stack", "internal/stacktrace", "", "Take", []string{"stack"}, "", ""},
 }
 
 func (p *pkgInfo) findFunc(recv, name string) *ast.FuncDecl {
@@ -630,6 +641,7 @@ type ownWalker struct {
 	p       *pkgInfo
 	aliases map[string]bool
 	owner   string
+	put     string
 	events  []string
 	late    []string // deferred
 }
@@ -663,6 +675,10 @@ func (w *ownWalker) walk(n ast.Node, dst *[]string) {
 		return
 	case *ast.CallExpr:
 		if sel, ok := v.Fun.(*ast.SelectorExpr); ok && sel.Sel.Name == "Free" && w.isAlias(sel.X) {
+			w.emit(dst, "BFree")
+			return
+		}
+		if w.put != "" && w.p.src(v.Fun) == w.put && len(v.Args) == 1 && w.isAlias(v.Args[0]) {
 			w.emit(dst, "BFree")
 			return
 		}
@@ -729,7 +745,7 @@ func (w *ownWalker) walk(n ast.Node, dst *[]string) {
 }
 
 func genOwnFacts(repo string, pkgs map[string]*pkgInfo, b *strings.Builder) error {
-	b.WriteString("\n(* what each function does, in source order, with the pooled buffer it holds *)\n")
+	b.WriteString("\n(* what each function does, in source order, with the pooled buffer / pooled object it holds *)\n")
 	b.WriteString("Definition own_facts : list ownfact := [\n")
 	for i, sp := range c08Owns {
 		p := pkgs[sp.Dir]
@@ -745,7 +761,7 @@ func genOwnFacts(repo string, pkgs map[string]*pkgInfo, b *strings.Builder) erro
 		if fd == nil {
 			return fmt.Errorf("%s: function not found", sp.Name)
 		}
-		w := &ownWalker{p: p, aliases: map[string]bool{}, owner: sp.Owner}
+		w := &ownWalker{p: p, aliases: map[string]bool{}, owner: sp.Owner, put: sp.Put}
 		for _, a := range sp.Aliases {
 			w.aliases[a] = true
 		}
